@@ -3,7 +3,7 @@
    callback on every run).  Every proof is `exact <lemma>`. *)
 From Coq Require Import List Bool Arith.
 From RecordUpdate Require Import RecordSet.
-From GW Require Import Proto ProtoEvolves ProtoProps ProtoBound.
+From GW Require Import Proto ProtoEvolves ProtoProps ProtoBound Callbacks CallbackGen CallbackRefine CallbackSend.
 Import ListNotations RecordSetNotations.
 
 (* in every reachable state the retry counter is within the configured budget (any interleaving, any number of callers) *)
@@ -28,7 +28,39 @@ Theorem C04_bound : forall es k ka r s acts,
   run_seq (init k ka r) es = Some (s, acts) -> s_nsend s <= r + 1.
 Proof. exact transmissions_bounded. Qed.
 
+(* the model's timeout handler, retry-exhaustion helper and the synchronous part of a transmission ARE the current source of
+   _timeout_mechanism / _max_retries_reached / _send_request (translated by tools/cb2v.py on this run) *)
+Theorem C04_udp_timeout_mechanism_is_the_model : forall s l, s_kind s = UDP -> runm udp_timeout_mechanism s l = timeout_mechanism s.
+Proof. exact udp_timeout_mechanism_refined. Qed.
+
+Theorem C04_tcp_timeout_mechanism_is_the_model : forall s l, s_kind s = TCP -> runm tcp_timeout_mechanism s l = timeout_mechanism s.
+Proof. exact tcp_timeout_mechanism_refined. Qed.
+
+Theorem C04_max_retries_reached_is_the_model : forall s l,
+  awaiting (length (s_futs (close_transport s))) (s_tasks (close_transport s)) = None ->
+  execb cb_max_retries_reached s l = (fst (max_retries s), l, [], XReturn).
+Proof. exact max_retries_refined. Qed.
+
+Theorem C04_send_request_sync_is_the_model : forall s k d t,
+  do_send s k d t =
+  let f := length (s_futs s) in
+  let l := locals0 <| l_transport := t |> <| l_fut := f |> <| l_task := k |> in
+  match execb (send_prog (s_kind s)) (s <| s_futs := s_futs s ++ [FPending] |>) l with
+  | (s', _, acts, _) =>
+      match fstat_of s' f with
+      | FPending => (set_pc (upd_task s' k (fun tk => tk <| t_depth := d |>)) k (PcAwait f), acts, None)
+      | FExc e => (s', acts, Some (RRaise e))
+      | FCancelled => (s', acts, Some (RRaise XCancelled))
+      | FResult _ => (s', acts, Some (RFut f))
+      end
+  end.
+Proof. exact do_send_refined. Qed.
+
 Print Assumptions C04_retry_bounded.
 Print Assumptions C04_budget_exhausted.
 Print Assumptions C04_retry_consumes_one.
 Print Assumptions C04_bound.
+Print Assumptions C04_udp_timeout_mechanism_is_the_model.
+Print Assumptions C04_tcp_timeout_mechanism_is_the_model.
+Print Assumptions C04_max_retries_reached_is_the_model.
+Print Assumptions C04_send_request_sync_is_the_model.
